@@ -31,6 +31,36 @@ FIRST_MISSED = {
     "C16a": "missed first in the quick tier: SGP and MUS added to its countries (the thorough tier had it)",
     "C16d": "missed first in the quick tier: URY added to its countries (the thorough tier and C18 had it)",
     "C17a": "missed first: weightings were even; very uneven ones added",
+    # wave 3
+    "C09e": "missed first: the replay re-implemented the glue between the classes; it now goes through `Parameters.init_*`",
+    "C10e": "missed first: conversions were only applied to freshly built quantities; sum / month / min / max of a series added",
+    "C11e": "missed first: construction was not an operation of `FoodAlgebra`; `ConstructCases` added",
+    "C12e": "missed first: one industrial-food job was silently dropped (numpy population in the harness's own inputs) and charges were "
+            "only raised in single months; windows on top of a charged base added, an unsolvable base is now a machinery failure",
+    "C14f": "missed first: the returned world map was not part of the observation",
+    "C18f": "missed first: no clause tied the running total a round is told to its monthly series, and no corpus run re-timed anything; "
+            "`RunningTotalIsCumulative` and the PAK short-schedule job added",
+    "C01f": "closed after reading the summary, before the check was run: the retail waste was read back from the code; `RetailWasteAsConfigured`",
+    "C03f": "closed after reading the summary: the shut-off months were read back from the code; `ShutoffAsConfigured` and fixed schedule jobs",
+    "C07f": "closed after reading the summary: supplies just short of / just beyond the requirement added to the Feed grid",
+    "C15e": "closed after reading the summary: every third case now goes through one long-lived runner object",
+    "C15f": "closed after reading the summary: a code that is not in the table added to the entries",
+    "C18e": "closed after reading the summary: bump inputs beyond the caller's invariant added (only `BumpNeverLowers` is claimed there)",
+    # wave 4
+    "C04h": "closed after reading the summary: `ResultUnchangedAfterwards` (the reported series of a round are final once interpreted)",
+    "C06g": "closed after reading the summary: MLI and GEO added to the quick herd countries",
+    "C09g": "closed after reading the summary: the reported hectares of the country table added to the generated constants",
+    "C10g": "`sum_many_results_together` has no caller; it is checked as an aggregate in C15 (`SumManyIsWeightedMean`), added after this change",
+    "C11g": "closed after reading the summary: index by a numpy integer added as an operation",
+    "C11h": "closed after reading the summary: an all-zero operand added to the universe",
+    "C12g": "closed after reading the summary: all six retail-waste keys are perturbed",
+    "C13g": "closed after reading the summary: zero-valued overrides added",
+    "C13h": "an override lost in the final round's herd: see `StartsFromConfiguredHeads` (C05), added after this change",
+    "C14g": "the intake-limit table became a fourth kind of shared state in `Process.tla` after this change",
+    "C15g": "closed after reading the summary: cases with a population override added",
+    "C15h": "closed after reading the summary: ratios just below one added (fractions counted in 1/200)",
+    "C16h": "closed after reading the summary: a resilient-food run with the intake caps off added to the corpus",
+    "C03g": "closed after reading the summary: the plain `continued` schedule was in no preset; two jobs added",
 }
 
 
